@@ -115,33 +115,47 @@ pub fn build(s: &Spec) -> BoxSource {
   }
 }
 
-/// Like `build`, but `observe` is called on every ReplaceSource / ConcatSource under
-/// construction after each mutating call (replace / insert / add), i.e. the tree is built
-/// through a history of the form mutate, observe, mutate, observe, ...
-pub fn build_observed(s: &Spec, observe: &mut dyn FnMut(&dyn rspack_sources::Source)) -> BoxSource {
-  match s {
-    Spec::Concat { how, children } if *how != 0 => {
+/// `build_concat` with `observe` called on every ConcatSource under construction after each `add`
+/// (the same constructor calls as `build_concat`, in the same order)
+pub fn build_concat_observed(how: u8, children: &[Spec], observe: &mut dyn FnMut(&dyn rspack_sources::Source)) -> ConcatSource {
+  match how {
+    3 if !children.is_empty() && children.iter().all(|c| matches!(c, Spec::Concat { .. })) => {
+      let items: Vec<ConcatSource> = children
+        .iter()
+        .map(|c| match c {
+          Spec::Concat { how, children } => build_concat_observed(*how, children, observe),
+          _ => unreachable!(),
+        })
+        .collect();
+      ConcatSource::new(items)
+    }
+    0 | 3 => {
+      let items: Vec<BoxSource> = children.iter().map(|c| build_observed(c, observe)).collect();
+      ConcatSource::new(items)
+    }
+    _ => {
       let mut c = ConcatSource::default();
       for x in children {
         match x {
-          Spec::Concat { how: h2, children: ch2 } if *how == 1 => {
-            let mut inner = ConcatSource::default();
-            for y in ch2 {
-              inner.add(build_observed(y, observe));
-              observe(&inner);
-            }
-            let _ = h2;
+          Spec::Concat { how: h2, children: ch2 } if how == 1 => {
+            let inner = build_concat_observed(*h2, ch2, observe);
             c.add(inner)
           }
           _ => c.add(build_observed(x, observe)),
         }
         observe(&c);
       }
-      c.boxed()
+      c
     }
-    Spec::Concat { children, .. } => {
-      ConcatSource::new(children.iter().map(|c| build_observed(c, observe)).collect::<Vec<BoxSource>>()).boxed()
-    }
+  }
+}
+
+/// Like `build`, but `observe` is called on every ReplaceSource / ConcatSource under
+/// construction after each mutating call (replace / insert / add), i.e. the tree is built
+/// through a history of the form mutate, observe, mutate, observe, ...
+pub fn build_observed(s: &Spec, observe: &mut dyn FnMut(&dyn rspack_sources::Source)) -> BoxSource {
+  match s {
+    Spec::Concat { how, children } => build_concat_observed(*how, children, observe).boxed(),
     Spec::Replace { inner, repls } => {
       let mut r = ReplaceSource::new(build_observed(inner, observe));
       observe(&r);
